@@ -14,6 +14,7 @@ RULE = (
     "above), LLR magnitudes {0.5,1,4,100}, batch sizes 1..8. Oracles: own reader of rank_polar.csv (cross-checked with the first 16 entries of the 5G sequence), explicit Kronecker "
     "power, u recovered from the codeword by the involution x.F^(xn), float64 textbook successive cancellation (recursive; cross-checked by brute-force marginalisation for N<=8) "
     "compared wherever every decision LLR exceeds 1e-3 in magnitude. Distinct = (configuration, message / LLR vector); non-trivial = non-zero message / random LLR vector."
+    " Added after the seeded-fault rounds: deep trees at very high/low rate (N=512,1024), codes of one block length built in one process in a mixed order of k, the encoder's dtype option (float64/int64/int32)."
 )
 ASSUMPTIONS = [
     "polar-BP is judged on the clean-decode clause only (iterative, not ML) and rejects interleaving by design (recorded as rejected)",
